@@ -109,6 +109,10 @@ def guesser_promise(pcfg, pw, p):
     return best or (False, None, None)
 
 
+WEBSITE_STRINGS = ['www.community.com', 'site.com-my.company', 'http://site.com/my.company', 'shop.net!internet', 'my.org1organ.orgy',
+                   'x.company.com', 'mail.ru2.rust']
+
+
 def run(ctx):
     rng = ctx.rng
     common.use_impl()
@@ -163,6 +167,10 @@ def run(ctx):
         prev_pws = list(dict.fromkeys(pws))
         for s in ['unrelated', 'Zq9!', 'xx', '2031', 'bob@mail.ru', 'www.site.com/x', 'ǅabc1', 'İPASS']:
             cands.setdefault(s, 'unrelated')
+        # a host name ends at the first place where a top-level domain is followed by neither a letter nor a dot - wherever the same
+        # letters turn up again, earlier (www.community.com) or later (site.com-my.company), as part of a longer word
+        for s in WEBSITE_STRINGS:
+            cands.setdefault(s, 'website')
         cands = {c: k for c, k in cands.items() if c and '\t' not in c and '\n' not in c}
         pre = ['dt.new'] + cd.uenv_ops(list(cands)) + cd.mw_ops(sc.multiword_detector) + ['dt.cfg 1 4 21'] + score_ops(sc)
         ops += pre
@@ -215,6 +223,8 @@ def run(ctx):
             # e-mail / website strings are classified as such with probability 0
             if cat in ('e', 'w') and prob != 0:
                 viol.append({'property': 'C13', 'kind': 'email-website-nonzero', 'string': c, 'witness': wit})
+            if kind == 'website' and (cat != 'w' or prob != 0):
+                viol.append({'property': 'C13', 'kind': 'website-not-classified', 'string': c, 'category': cat, 'score': prob, 'witness': wit})
             if prob != 0:
                 dist['nonzero'] += 1
                 okp, pt, gp = guesser_promise(pcfg, c, prob)
